@@ -59,7 +59,15 @@ func runSolverCtx(parent context.Context, sp solverSpec, file string, timeoutSec
 	cmd.Run()
 	secs := time.Since(t0).Seconds()
 	out := buf.String()
-	first := strings.TrimSpace(strings.SplitN(out, "\n", 2)[0])
+	first := ""
+	for _, ln := range strings.Split(out, "\n") {
+		ln = strings.TrimSpace(ln)
+		if ln == "" || strings.HasPrefix(ln, "WARNING") || strings.Contains(ln, "warning:") {
+			continue
+		}
+		first = ln
+		break
+	}
 	res := "error"
 	switch {
 	case first == "unsat":
@@ -154,6 +162,9 @@ func solveAll(results []*FuncResult, workDir string, quickSec, fullSec int, all 
 				o.Result = "skipped"
 				continue
 			}
+			if o.Result == "not-attempted" {
+				continue
+			}
 			jobs = append(jobs, job{r, o})
 		}
 	}
@@ -184,7 +195,13 @@ func solveAll(results []*FuncResult, workDir string, quickSec, fullSec int, all 
 				q := j.r.query(j.o, true)
 				j.r.mu.Unlock()
 				os.WriteFile(file, []byte(q), 0o644)
-				best, _ := discharge(file, quickSec, fullSec, all)
+				qs, fs := quickSec, fullSec
+				if j.o.Support && !all {
+					// supporting obligations get one short attempt; an undecided one only means that the selected
+					// obligations after it are re-solved without its fact
+					qs, fs = 6, 6
+				}
+				best, _ := discharge(file, qs, fs, all)
 				j.o.Result = best.result
 				j.o.Backend = best.solver
 				j.o.Secs = best.secs
